@@ -81,6 +81,81 @@ pub fn main(args: &Args) -> std::io::Result<()> {
             }
         };
         let scale = 1.0 + chord + rx.abs() + ry.abs();
+        // ---- the consumers: the same arc through the SVG builder (arc_to / relative_arc_to) and through the
+        // parser's A command must start at the current point, end at the requested point and stay on the ellipse
+        {
+            use lyon_path::traits::SvgPathBuilder;
+            let f32p = |p: Point<f64>| lyon_path::math::point(p.x as f32, p.y as f32);
+            let radii32 = lyon_path::math::vector(sa.radii.x as f32, sa.radii.y as f32);
+            let rot32 = lyon_path::math::Angle::radians(rot as f32);
+            let fl = lyon_path::ArcFlags { large_arc: flags.large_arc, sweep: flags.sweep };
+            let via_builder = catch(AssertUnwindSafe(|| {
+                let mut b = lyon_path::Path::svg_builder();
+                b.move_to(f32p(from));
+                if it % 2 == 0 {
+                    b.arc_to(radii32, rot32, fl, f32p(to));
+                } else {
+                    b.relative_arc_to(radii32, rot32, fl, f32p(to) - f32p(from));
+                }
+                b.build()
+            }));
+            let via_parser = catch(AssertUnwindSafe(|| {
+                let text = format!("M {} {} A {} {} {} {} {} {} {}", from.x, from.y, sa.radii.x as f32, sa.radii.y as f32, (rot as f32).to_degrees(), flags.large_arc as u8, flags.sweep as u8, to.x, to.y);
+                let mut b = lyon_path::Path::builder();
+                let r = lyon_extra::parser::PathParser::new().parse(&lyon_extra::parser::ParserOptions::DEFAULT, &mut lyon_extra::parser::Source::new(text.chars()), &mut b);
+                (r.is_ok(), b.build())
+            }));
+            let check = |what: &str, path: &lyon_path::Path, st: &mut Stats| {
+                let tol = 4e-3 * scale;
+                let mut last = None;
+                let mut first_from = None;
+                let mut worst = 0.0f64;
+                for e in path.iter() {
+                    match e {
+                        lyon_path::PathEvent::Line { from: a, to: b } => {
+                            // only a negligible connector to the start of the arc is expected
+                            if (b - a).length() as f64 > tol && !sa.is_straight_line() {
+                                worst = f64::MAX;
+                            }
+                            first_from.get_or_insert(a);
+                            last = Some(b);
+                        }
+                        lyon_path::PathEvent::Quadratic { from: a, ctrl, to: b } => {
+                            first_from.get_or_insert(a);
+                            let q = QuadraticBezierSegment { from: point(a.x as f64, a.y as f64), ctrl: point(ctrl.x as f64, ctrl.y as f64), to: point(b.x as f64, b.y as f64) };
+                            for i in 0..=8 {
+                                worst = worst.max(ellipse_dist(&arc, q.sample(i as f64 / 8.0)));
+                            }
+                            last = Some(b);
+                        }
+                        _ => {}
+                    }
+                }
+                let rmax = arc.radii.x.max(arc.radii.y);
+                let end_ok = last.map_or(false, |l| ((l.x as f64 - to.x).hypot(l.y as f64 - to.y)) <= tol);
+                let start_ok = first_from.map_or(false, |l| ((l.x as f64 - from.x).hypot(l.y as f64 - from.y)) <= tol);
+                if !end_ok || !start_ok {
+                    st.fail(jobj(&[("what", jstr(&format!("{}: the arc does not run from the current point to the requested end point", what))), ("input", jstr(&format!("{} -> {:?}", label, path)))]));
+                } else if !sa.is_straight_line() && worst > 0.012 * rmax + tol {
+                    st.fail(jobj(&[("what", jstr(&format!("{}: the emitted curves stray from the ellipse of the arc", what))), ("input", jstr(&format!("{} -> {:?} (worst {})", label, path, worst)))]));
+                }
+            };
+            st.inc("consumer_checks");
+            match via_builder {
+                None => st.fail(jobj(&[("what", jstr("WithSvg::arc_to panicked")), ("input", jstr(&label))])),
+                Some(p) => check("SVG builder arc_to", &p, &mut st),
+            }
+            match via_parser {
+                None => st.fail(jobj(&[("what", jstr("parsing an A command panicked")), ("input", jstr(&label))])),
+                Some((ok, p)) => {
+                    if !ok {
+                        st.fail(jobj(&[("what", jstr("parsing a well-formed A command failed")), ("input", jstr(&label))]));
+                    } else {
+                        check("parser A command", &p, &mut st);
+                    }
+                }
+            }
+        }
         // ---- direct checks
         if (arc.from() - from).length() > 1e-7 * scale || (arc.to() - to).length() > 1e-7 * scale {
             st.fail(jobj(&[("what", jstr("centre-form arc does not start / end at the given points")), ("input", jstr(&format!("{} -> {:?}: from {:?} to {:?}", label, arc, arc.from(), arc.to())))]));
